@@ -279,6 +279,23 @@ pub(crate) struct CacheCleaner<'a, V, U, CB, S> {
     pub(crate) processor: &'a mut CacheProcessor<V, U, CB, S>,
 }
 
+/// Completes its wait group when dropped, so that a waiter is released even if the
+/// message carrying it is discarded instead of being handled.
+pub(crate) struct Signal(WaitGroup);
+
+impl Signal {
+    #[inline]
+    fn new(wg: &WaitGroup) -> Self {
+        Self(wg.add(1))
+    }
+}
+
+impl Drop for Signal {
+    fn drop(&mut self) {
+        self.0.done();
+    }
+}
+
 pub(crate) enum Item<V> {
     New {
         key: u64,
@@ -296,7 +313,7 @@ pub(crate) enum Item<V> {
         key: u64,
         conflict: u64,
     },
-    Wait(WaitGroup),
+    Wait(Signal),
 }
 
 impl<V> Item<V> {
@@ -478,6 +495,10 @@ where
             return Ok(());
         }
 
+        self.clear_in().await
+    }
+
+    async fn clear_in(&self) -> Result<(), CacheError> {
         // stop the process item thread.
         self.clear_tx.send(()).await.map_err(|e| {
             CacheError::SendError(format!("fail to send clear signal to working thread {}", e))
@@ -555,9 +576,13 @@ where
         }
 
         let wg = WaitGroup::new();
-        let wait_item = Item::Wait(wg.add(1));
-        match self.insert_buf_tx.try_send(wait_item) {
+        match self.insert_buf_tx.try_send(Item::Wait(Signal::new(&wg))) {
             Ok(_) => {
+                // A close() that started after the marker was queued drains the buffer before
+                // the processing task exits; one that started before may never look at it.
+                if self.is_closed.load(Ordering::SeqCst) {
+                    return Ok(());
+                }
                 wg.wait().await;
                 Ok(())
             }
@@ -598,17 +623,16 @@ where
     /// `close` stops all threads and closes all channels.
     #[inline]
     pub async fn close(&self) -> Result<(), CacheError> {
-        if self.is_closed.load(Ordering::SeqCst) {
+        if self.is_closed.swap(true, Ordering::SeqCst) {
             return Ok(());
         }
 
-        self.clear().await?;
+        self.clear_in().await?;
         // Block until processItems thread is returned
         self.stop_tx.send(()).await.map_err(|e| {
             CacheError::SendError(format!("fail to send stop signal to working thread, {}", e))
         })?;
         self.policy.close().await?;
-        self.is_closed.store(true, Ordering::SeqCst);
         Ok(())
     }
 
@@ -730,6 +754,11 @@ where
         self.insert_buf_rx.close();
         self.clear_rx.close();
         self.stop_rx.close();
+        // a closed channel keeps its messages: release whoever is still waiting on a
+        // marker in the buffer
+        while let Ok(item) = self.insert_buf_rx.try_recv() {
+            CacheCleaner::new(self).handle_item(item);
+        }
         Ok(())
     }
 
